@@ -142,6 +142,45 @@ func main() {
 	tv := []byte("SPDXVersion: SPDX-2.3\nDataLicense: CC0-1.0\nSPDXID: SPDXRef-DOCUMENT\n")
 	tvNo := []byte("SPDXVersion: nothing\nsome text\nmore text\n")
 
+	sharedFmt := formats.Format("text/verif-stress-shared")
+	sharedU := []*nativefakes.FakeUnserializer{{}, {}}
+	sharedS := []*nativefakes.FakeSerializer{{}, {}}
+	reader.RegisterUnserializer(sharedFmt, sharedU[0])
+	writer.RegisterSerializer(sharedFmt, sharedS[0])
+	// a storm of replacements of one registered format's driver against lookups of that format: the window
+	// in which a non-atomic replacement leaves the format without a driver is a few nanoseconds wide
+	{
+		var sw sync.WaitGroup
+		done := make(chan struct{})
+		for k := 0; k < 8; k++ {
+			sw.Add(1)
+			go func() {
+				defer sw.Done()
+				for {
+					select {
+					case <-done:
+						return
+					default:
+					}
+					if got, err := reader.GetFormatUnserializer(sharedFmt); err != nil || (got != native.Unserializer(sharedU[0]) && got != native.Unserializer(sharedU[1])) {
+						report("lookup of a format whose driver is being replaced (never removed) did not return a driver registered for it", fmt.Sprint(err))
+						return
+					}
+					if got, err := writer.GetFormatSerializer(sharedFmt); err != nil || (got != native.Serializer(sharedS[0]) && got != native.Serializer(sharedS[1])) {
+						report("serializer lookup of a format whose driver is being replaced (never removed) did not return a driver registered for it", fmt.Sprint(err))
+						return
+					}
+				}
+			}()
+		}
+		for k := 0; k < 30000; k++ {
+			reader.RegisterUnserializer(sharedFmt, sharedU[k%2])
+			writer.RegisterSerializer(sharedFmt, sharedS[k%2])
+		}
+		close(done)
+		sw.Wait()
+		count("replacement-storm")
+	}
 	var wg sync.WaitGroup
 	for w := 0; w < *workers; w++ {
 		wg.Add(1)
@@ -235,6 +274,21 @@ func main() {
 					}
 					count("writer-registry")
 				default: // lookups of the built-in drivers while others register
+					// a format that stays registered throughout while its driver is replaced again and again: a
+					// lookup always finds one of the drivers that were registered for it
+					if w%3 == 0 {
+						reader.RegisterUnserializer(sharedFmt, sharedU[it%2])
+						writer.RegisterSerializer(sharedFmt, sharedS[it%2])
+						count("replace-shared-driver")
+					} else {
+						if got, err := reader.GetFormatUnserializer(sharedFmt); err != nil || (got != native.Unserializer(sharedU[0]) && got != native.Unserializer(sharedU[1])) {
+							report("lookup of a format whose driver is being replaced (never removed) did not return a driver registered for it", fmt.Sprint(err))
+						}
+						if got, err := writer.GetFormatSerializer(sharedFmt); err != nil || (got != native.Serializer(sharedS[0]) && got != native.Serializer(sharedS[1])) {
+							report("serializer lookup of a format whose driver is being replaced (never removed) did not return a driver registered for it", fmt.Sprint(err))
+						}
+						count("lookup-shared")
+					}
 					if _, err := reader.GetFormatUnserializer(f); err != nil {
 						report("built-in unserializer lookup failed during concurrent registrations", err.Error())
 					}
